@@ -20,7 +20,7 @@ for p in props:
     mod = None
     if f.exists():
         mod = importlib.import_module(f"props.{pid}")
-    if mod is not None and hasattr(mod, "MANIFEST") and not getattr(mod, "DISABLED", False):
+    if mod is not None and hasattr(mod, "MANIFEST") and not getattr(mod, "DISABLED", False) and pid not in PENDING_REASON:
         m = mod.MANIFEST
         checks.append({
             "property_id": pid,
